@@ -84,6 +84,7 @@ func InlineCalls(fns []*Function, opt InlineOptions) *InlineResult {
 				}
 				g := call.Call.StaticCallee()
 				inlineOne(f, call, g)
+				simplifyPhis(f) // several return sites yielding the same value
 				res.Inlined = append(res.Inlined, f.String()+" <- "+g.String())
 				changed = true
 			}
